@@ -3233,6 +3233,16 @@ PIP_Solution_Node::solve(const PIP_Problem& pip,
           // t_node unfeasible, f_node feasible:
           // restore cs and aps into f_node (i.e., this).
           PPL_ASSERT(f_node == this);
+          // Note: keep the constraints and the artificial parameters
+          // that the recursive resolution added to f_node.
+          for (Constraint_System::const_iterator
+                 i = f_node->constraints_.begin(),
+                 i_end = f_node->constraints_.end(); i != i_end; ++i) {
+            cs.insert(*i);
+          }
+          aps.insert(aps.end(),
+                     f_node->artificial_parameters.begin(),
+                     f_node->artificial_parameters.end());
           swap(f_node->constraints_, cs);
           swap(f_node->artificial_parameters, aps);
           // Add f_test to constraints.
